@@ -276,7 +276,7 @@ def gen_die(rng, P, variant="robust", decimal=False):
     doc = {k: ([[pv(x) for x in r] for r in v] if (k == "regions" and nested) else
                ([pv(x) for x in v] if k == "regions" else pv(v))) for k, v in tree.items()}
     op = {"k": "die", "doc": doc, "netlist": None}
-    if rng.random() < 0.25:
+    if rng.random() < 0.25 and rel.refine_safe(W, H, [b[:4] for b in boxes]):
         op["refine"] = [rng.choice([1.5, 2.0, 3.0]), rng.choice([1, 4, 9, 16])]      # split_refinable_regions
     cand = []
     ds = [W, H] + [b[2] for b in boxes] + [b[3] for b in boxes]
@@ -722,8 +722,15 @@ def copy_of(d):
 _CACHE = {}
 
 
+def okey(x) -> str:
+    """an ORDER-SENSITIVE hash: two documents that differ only in the order of their modules (dictionary keys) are
+    different designs here (core.canon_hash sorts the keys and would identify them)"""
+    import hashlib
+    return hashlib.sha1(json.dumps(fr.tojson(x), sort_keys=False, default=str).encode()).hexdigest()
+
+
 def case_key(case):
-    return core.canon_hash(fr.tojson(case))
+    return okey(case)
 
 
 def wj(x):
@@ -778,14 +785,14 @@ def run_batch(cases, par=8):
     probe alone; then the attribution runs for the pairs that differ"""
     groups, order = {}, []
     for c in cases:
-        hk = core.canon_hash(fr.tojson(c["history"]))
+        hk = okey(c["history"])
         if hk not in groups:
             groups[hk] = {"history": c["history"], "cases": []}
             order.append(hk)
         groups[hk]["cases"].append(c)
     probes, pidx = [], {}
     for c in cases:
-        pk = core.canon_hash(fr.tojson(c["probe"]["op"]))
+        pk = okey(c["probe"]["op"])
         if pk not in pidx:
             pidx[pk] = len(probes)
             probes.append(c["probe"]["op"])
@@ -810,7 +817,7 @@ def run_batch(cases, par=8):
     for hk in order:
         r = res[hk]
         for i, c in enumerate(groups[hk]["cases"]):
-            pk = core.canon_hash(fr.tojson(c["probe"]["op"]))
+            pk = okey(c["probe"]["op"])
             a = alone[pidx[pk]]
             if "probes" not in r:
                 obs = {"crash": str(r.get("worker_error", "no result"))}
